@@ -117,6 +117,36 @@ def kb2(P, C):
                  "shift loop entered only when %s (required %r == 0)" % (f.render(f.nodes[ifs[0]]["cond"]) if ifs else None, core.eq_norm(want_entry)))
 
 
+def kb2b(P, C):
+    C.rule("KB-2b", "in every basis kernel the two margin shifts are independent: the up-shift (right margin) is not nested in the else-branch "
+           "of the down-shift's entry test, nor the other way round — for the shortest admitted knot vector (nknots = 2*order+2, exactly "
+           "order+1 coefficients) both entry tests name the same centre, and a point in the right margin must still reach the up-shift", floor=6)
+    for f in kernels(P):
+        loops = [i for i in f.walk() if f.k(i) == "WhileStmt"]
+        down = up = None
+        for L in loops:
+            body = f.render(f.nodes[L]["body"]).replace(" ", "")
+            if body in ("(left--)", "(--left)", "($3--)"):
+                down = L
+            if body in ("(left++)", "(++left)", "($3++)"):
+                up = L
+        if down is None or up is None:
+            C.ob("KB-2b", kname(f), "margins-independent", False, f.where(), "margin shift loops not found")
+            continue
+        gd = [a for a in f.ancestors(down) if f.k(a) == "IfStmt"]
+        gu = [a for a in f.ancestors(up) if f.k(a) == "IfStmt"]
+        nested = None
+        if gd and gu:
+            if gd[0] in set(f.ancestors(gu[0])) and f.nodes[gd[0]].get("else", -1) >= 0 and gu[0] in set(f.walk(f.nodes[gd[0]]["else"])):
+                nested = "the up-shift is reachable only when the down-shift's entry test (left == order) fails"
+            if gu[0] in set(f.ancestors(gd[0])) and f.nodes[gu[0]].get("else", -1) >= 0 and gd[0] in set(f.walk(f.nodes[gu[0]]["else"])):
+                nested = "the down-shift is reachable only when the up-shift's entry test fails"
+        # the loops' own conditions keep them exclusive (x < knots[left] vs x > knots[left+1]), so making them independent is harmless
+        C.ob("KB-2b", kname(f), "margins-independent", bool(gd) and bool(gu) and nested is None, f.loc(gu[0]) if gu else f.where(),
+             "both margin shifts are reachable whatever the other's entry test says" if nested is None else
+             nested + ": with nknots == 2*order+2 both tests hold for the single centre, so right-margin points are evaluated without the shift (wrong values)")
+
+
 # ------------------------------------------------------------------ KB-3
 def gradient_fns(P):
     fs = [f for f in P.fns("ndsplineeval_gradient") if f.unit == "driver" and f.file.endswith("bspline_multi.h")]
